@@ -644,9 +644,9 @@ DRV_OP(del) {
         return std::string(r ? "1" : "0");
     });
 }
-// valid <slot> => ok 0|1|none
+// valid <slot> [deleted] => ok 0|1|none      (`deleted`: the generator's remark that the entity has just been deleted)
 DRV_OP(valid) {
-    if (a.size() != 2) throw ProtoError("valid arity");
+    if (a.size() != 2 && a.size() != 3) throw ProtoError("valid arity");
     return guarded([&]() {
         Ent &e = slot(a[1]);
         if (!isSome(e)) return std::string("none");
